@@ -43,13 +43,7 @@ pub fn play(player: &mut Player, input: &Value) -> Result<Played, String> {
         let impl_line = enc.impl_line(&obs);
         (request, impl_line)
     };
-    // The shared encoder takes a manifest with a stray trailing byte for
-    // junk (the real decoder accepts it): oracle only.
-    let trailing = scn.runs.iter().any(|run| run.serve.points.iter().any(|(name, v)| {
-        scn.world.ca(name).and_then(|c| c.versions.get(*v))
-            .map(|pv| matches!(pv.mft_publish, Publish::Corrupt)).unwrap_or(false)
-    }));
-    let comparable = comparable(&scn.opts) && !trailing;
+    let comparable = comparable(&scn.opts);
     Ok(Played { scn, obs, truth, request, impl_line, comparable })
 }
 
